@@ -451,6 +451,29 @@ def rule_minimalif(ctx: Ctx, rep: Report) -> None:
     rep.floor(rule, 4)
 
 
+def rule_strictenc_hashtypes(ctx: Ctx, rep: Report) -> None:
+    """C08.strictenc_hashtypes: under STRICTENC the last byte of an ECDSA signature
+    is one of Core's IsDefinedHashtypeSignature six -- ALL, NONE, SINGLE, each
+    with or without ANYONECANPAY -- and the set fix_signature tests membership in
+    folds to exactly those: taproot's SIGHASH_DEFAULT (0x00) is not among them."""
+    rule = "C08.strictenc_hashtypes"
+    fi = ctx.func(f"{ENG}.script.fix_signature")
+    sets = []
+    for i in own_nodes(fi.node):
+        if isinstance(i, ast.If) and any(isinstance(x, ast.Raise) for x in i.body) and "STRICTENC" in norm(i.test):
+            for c in ast.walk(i.test):
+                if isinstance(c, ast.Compare) and isinstance(c.ops[0], ast.NotIn):
+                    sets.append((c, ctx.fold(c.comparators[0], fi.module)))
+    if len(sets) != 1 or not isinstance(sets[0][1], (set, frozenset)):
+        rep.ob(rule, "fix_signature:set", False, fi.where(), f"the STRICTENC membership test was not found or does not fold: {[norm(c) for c, _ in sets]}")
+        return
+    c, v = sets[0]
+    want = frozenset({1, 2, 3, 0x81, 0x82, 0x83})
+    rep.ob(rule, "fix_signature:set", frozenset(v) == want, fi.where(c), "the six defined ECDSA hash types" if frozenset(v) == want else
+           f"`{norm(c)}` admits {sorted(hex(x) for x in frozenset(v) - want)} and refuses {sorted(hex(x) for x in want - frozenset(v))} beyond Core's six: another verdict under STRICTENC")
+    rep.floor(rule, 1)
+
+
 # ---------------------------------------------------------------------------
 def rule_flags(ctx: Ctx, rep: Report) -> None:
     """C08.flags: the flag enum is Core's, and every flag is consulted by the engine."""
@@ -793,6 +816,7 @@ def rule_foreign_errors(ctx: Ctx, rep: Report) -> None:
 
 
 RULES = [
+    ("C08.strictenc_hashtypes", rule_strictenc_hashtypes),
     ("C08.sigops_charge", rule_sigops_charge),
     ("C08.minimalif", rule_minimalif),
     ("C08.foreign_errors", rule_foreign_errors),
